@@ -147,6 +147,49 @@ def g_general_nonlinear_scale_list(n: int) -> bool:
     """
     return _raises(_gnl, SimpleNamespace(), 1, 8, derivative_operator=None, dealiasing_fraction=0.5, scale_list=(0.0,) * n) == (n != 3)
 '''
+    src += '''
+_sw = blank(ex.ic.SineWaves1d.__init__, truncate=True, keep_guards=3)
+def g_sinewaves_options(offset: int, std_one: bool, max_one: bool) -> bool:
+    """
+    post: __return__ == True
+    """
+    rejected = _raises(_sw, SimpleNamespace(), 1.0, (1.0,), (1,), (0.0,), offset=offset, std_one=std_one, max_one=max_one)
+    return rejected == ((offset != 0 and std_one) or (std_one and max_one))
+
+_disc = blank(ex.ic.Discontinuities.__init__, truncate=True, keep_guards=2)
+def g_discontinuities_options(zero_mean: bool, std_one: bool, max_one: bool) -> bool:
+    """
+    post: __return__ == True
+    """
+    return _raises(_disc, SimpleNamespace(), (), zero_mean=zero_mean, std_one=std_one, max_one=max_one) == (((not zero_mean) and std_one) or (std_one and max_one))
+
+_rdisc = blank(ex.ic.RandomDiscontinuities.__init__, truncate=True, keep_guards=2)
+def g_random_discontinuities_options(zero_mean: bool, std_one: bool, max_one: bool) -> bool:
+    """
+    post: __return__ == True
+    """
+    return _raises(_rdisc, SimpleNamespace(), 1, zero_mean=zero_mean, std_one=std_one, max_one=max_one) == (((not zero_mean) and std_one) or (std_one and max_one))
+
+_rsw = blank(ex.ic.RandomSineWaves1d.__init__, truncate=True, keep_guards=3)
+_ORS = [(0.0, 0.0), (0.0, 1.0), (-1.0, 0.0), (-0.5, 0.5), (0.25, 0.25)]
+def g_random_sinewaves_options(D: int, r: int, std_one: bool, max_one: bool) -> bool:
+    """
+    pre: 1 <= D <= 3 and 0 <= r <= 4
+    post: __return__ == True
+    """
+    return _raises(_rsw, SimpleNamespace(), D, offset_range=_ORS[r], std_one=std_one, max_one=max_one) == (D != 1 or (r != 0 and std_one) or (std_one and max_one))
+
+_SWT = [(), (1.0,), (1.0, 1.0)]
+def g_sinewaves_lengths(na: int, nw: int, nph: int) -> bool:
+    """
+    pre: 0 <= na <= 2 and 0 <= nw <= 2 and 0 <= nph <= 2
+    post: __return__ == True
+    """
+    rejected = _raises(_sw, SimpleNamespace(), 1.0, _SWT[na], _SWT[nw], _SWT[nph])
+    return rejected == (na != nw or nw != nph)
+'''
+    names += [("sinewaves_options", "option validation", False), ("sinewaves_lengths", "option validation", False), ("discontinuities_options", "option validation", False),
+              ("random_discontinuities_options", "option validation", False), ("random_sinewaves_options", "option validation", False)]
     names += [("laplace_parity", "operator guards", False), ("gradinner_guards", "operator guards", False), ("normalization_options", "option validation", False),
               ("make_incompressible_channels", "operator guards", False), ("general_nonlinear_scale_list", "option validation", False)]
     # reachability twin: a wrong postcondition must be refuted by CrossHair
@@ -219,6 +262,7 @@ def _enumerated(ck):
     for D in (1, 2, 3):
         cases.append((f"RandomSineWaves1d/D{D}", raises(lambda: ex.ic.RandomSineWaves1d(D)) == (D != 1)))
     cases.append(("SineWaves1d/offset+std_one", raises(lambda: ex.ic.SineWaves1d(1.0, (1.0,), (1,), (0.0,), offset=1.0, std_one=True))))
+    cases.append(("SineWaves1d/negative-offset+std_one", raises(lambda: ex.ic.SineWaves1d(1.0, (1.0,), (1,), (0.0,), offset=-0.25, std_one=True))))
     cases.append(("SineWaves1d/std_one+max_one", raises(lambda: ex.ic.SineWaves1d(1.0, (1.0,), (1,), (0.0,), std_one=True, max_one=True))))
     cases.append(("SineWaves1d/length-mismatch", raises(lambda: ex.ic.SineWaves1d(1.0, (1.0, 2.0), (1,), (0.0,)))))
     cases.append(("SineWaves1d/valid", not raises(lambda: ex.ic.SineWaves1d(1.0, (1.0,), (1,), (0.0,)))))
